@@ -71,5 +71,64 @@ pub fn run(cfg: &Cfg, log: &mut Log) {
             }
             log.sample(J::obj(vec![("type", J::s(rc.name)), ("value", J::s(show_val(&v))), ("fault_positions", J::u(l as u64))]));
         }
+        // large values: single requests beyond 2^16 bytes, fragmented at sizes below, around and above that
+        for v in if cfg!(miri) { vec![] } else { big_values(&rc) } {
+            log.begin(rc.name);
+            let Ok(bytes) = ser_plain(&rc, &v) else {
+                log.violation("C14", "C14/serialize", rc.name, Some(&v), "serialize failed".into(), vec![]);
+                continue;
+            };
+            let l = bytes.len();
+            log.count("large_values", 1);
+            log.distinct(model::rng::fnv(rc.name) ^ v.shape_hash());
+            let pats: Vec<(String, Chunk, usize)> = vec![
+                ("1 byte per call".into(), Chunk::Fixed(1), 0),
+                ("4096 bytes per call".into(), Chunk::Fixed(4096), 0),
+                ("20000 bytes per call".into(), Chunk::Fixed(20000), 0),
+                ("65535 bytes per call".into(), Chunk::Fixed(65535), 0),
+                ("65537 bytes per call".into(), Chunk::Fixed(65537), 0),
+                ("cycle 70000/1/4095".into(), Chunk::Cycle(vec![70000, 1, 4095]), 0),
+                ("random sizes up to 100000".into(), Chunk::Rand(Rng::new(cfg.seed ^ l as u64), 100_000), 0),
+                ("random sizes up to 3000 + interrupted every 3rd".into(), Chunk::Rand(Rng::new(cfg.seed.wrapping_add(l as u64)), 3000), 3),
+            ];
+            for (name, chunk, intr) in pats {
+                let mut rd = IoReader::new(&bytes);
+                rd.chunk = chunk;
+                rd.interrupt_every = intr;
+                log.count("evaluations", 1);
+                log.count("chunk_patterns", 1);
+                log.count("large_chunk_patterns", 1);
+                match rc.root.full(&mut rd) {
+                    Ok(back) if back == v && rd.pos == l => {
+                        log.count("same_value", 1);
+                        log.count("read_calls", rd.calls as u64);
+                    }
+                    Ok(_) => log.violation("C14", &format!("C14/chunk-value/{}", class), rc.name, None,
+                        format!("large value ({} bytes), reader delivering {}: different value (consumed {} of {})", l, name, rd.pos, l), vec![]),
+                    Err(f) => log.violation("C14", &format!("C14/chunk-fail/{}", class), rc.name, None,
+                        format!("large value ({} bytes), reader delivering {}: {}", l, name, fail_str(&f)), vec![]),
+                }
+            }
+            let mut r = Rng::new(cfg.seed ^ 0xC14 ^ l as u64);
+            let mut ks: Vec<usize> = vec![0, 1, 36, l / 2, l - 1, 65535.min(l - 1), 65536.min(l - 1), 65537.min(l - 1), l.saturating_sub(65536)];
+            for _ in 0..24 {
+                ks.push(r.below(l));
+            }
+            for k in ks {
+                let mut rd = IoReader::new(&bytes);
+                rd.fail_at = Some(k);
+                rd.chunk = Chunk::Fixed(30000);
+                log.count("evaluations", 1);
+                log.count("fault_positions", 1);
+                match rc.root.full(&mut rd) {
+                    Err(Fail::Err(DeErr::Read)) => log.count("read_error_returned", 1),
+                    other => {
+                        let g = match &other { Ok(_) => "Ok(..)".to_string(), Err(f) => fail_str(f) };
+                        log.violation("C14", &format!("C14/fail-at/{}", class), rc.name, None,
+                            format!("large value: reader failing at byte {} of {}: {} instead of ReadError", k, l, g), vec![]);
+                    }
+                }
+            }
+        }
     }
 }
